@@ -301,6 +301,8 @@ pub(crate) fn ansi_port_declaration_net(s: Span) -> IResult<Span, AnsiPortDeclar
     let (s, a) = opt(net_port_header_or_interface_port_header)(s)?;
     let (s, b) = port_identifier(s)?;
     let (s, c) = many0(unpacked_dimension)(s)?;
+    // a dimension that is no unpacked_dimension ([], [string], [*]) belongs to the variable form
+    let (s, _) = peek(not(symbol("[")))(s)?;
     let (s, d) = opt(pair(symbol("="), constant_expression))(s)?;
     Ok((
         s,
